@@ -348,6 +348,16 @@ func c12Corpus() []string {
 	}
 	sb.WriteString("            else:\n                continue\n        finally:\n            t += 1\n    return t\nbig([1, 0, 1])\n")
 	out = append(out, sb.String())
+	// operands that are not jumps beyond 16 bits: more than 65536 constants
+	{
+		var b strings.Builder
+		b.WriteString("def consts():\n    x = 0\n")
+		for i := 0; i < 65600; i++ {
+			fmt.Fprintf(&b, "    x = %d\n", i+3)
+		}
+		b.WriteString("    return x\nconsts()\n")
+		out = append(out, b.String())
+	}
 	// jump operands and targets at the 16-bit boundary: the head of a loop (target of a backward jump) and the end of an
 	// if body (target of a forward jump) placed at every offset the padding menu can produce around 65535
 	extras := []string{"", "t", "-t", "t = t", "t\n    t", "t\n    -t", "-t\n    -t", "t = t\n    -t"}
